@@ -185,7 +185,8 @@ def producer_scenarios(rng, n):
         d = tempfile.mkdtemp(prefix="vprod")
         try:
             prod = rng.choice(["diff -ruN", "diff -ruN", "diff -rN -U0", "diff -rN -U1", "diff -rcN", "diff -rN -C1", "diff -rN", "git",
-                               "diff -rupN", "diff -rcpN", "diff -rN -C1 -F ^[a-z]"])
+                               "diff -rupN", "diff -rcpN", "diff -rN -C1 -F ^[a-z]",
+                               "diff -ruN --suppress-blank-empty", "diff -rN -U1 --suppress-blank-empty"])
             # a normal diff names no file: one file, named on the command line
             nfiles = 1 if prod == "diff -rN" else rng.randint(1, 3)
             tree = {}
@@ -196,6 +197,10 @@ def producer_scenarios(rng, n):
             for nm in names:
                 a, ops, b = applyc.gen_pair(rng, maxlen=10)
                 ops = applyc.fix_nonl([(o, (t.replace("\r", "r"), "L" if nl == "C" else nl)) for o, (t, nl) in ops])
+                if "suppress" in prod:
+                    # blank lines as context, also as the first line of a hunk
+                    ops = [((o, ("", nl)) if (o == " " and rng.random() < 0.4) else (o, (t, nl))) for o, (t, nl) in ops]
+                    ops = applyc.fix_nonl(ops)
                 a = [l for o, l in ops if o != "+"]; b = [l for o, l in ops if o != "-"]
                 kind = "change" if prod == "diff -rN" else rng.choice(["change", "change", "change", "add", "delete"])
                 if kind == "add":
